@@ -1,11 +1,81 @@
 HOOK_COMMITS = ["8a261fb", "adf09ea", "3fc3835"]
 NOT_APPLICABLE = {}
-DEFAULT_LEVEL_TEXT = ("The property is stated as TLA+ predicates (spec/MeldaTrace.tla, over the shared definitions of "
-    "spec/MeldaCore.tla). TLC evaluates them at every step of traces recorded from the real library while it "
-    "executes seeded multi-replica histories; a violated predicate names the property. Bounded: explored "
-    "histories only.")
-LEVEL_TEXT = {}
+
+COMMON = ("Decided with the TLA+ specification in spec/: (1) TLC model-checks the Level-I model of replicas "
+          "(Melda.tla + MeldaMC.tla, shared definitions in MeldaCore.tla) for every interleaving within the bounds of "
+          "the config(s) and shows the property holds on the design; (2) TLC-emitted schedules (one per distinct model "
+          "state, sampled) and seeded random histories are executed in the real library by the harness, which records "
+          "one event with the projected Observation per API call; (3) TLC validates every recorded event against the "
+          "property's predicates in MeldaTrace.tla (antecedent counts prove non-vacuity). ")
+
+LEVEL_TEXT = {
+    "C01": COMMON + "Predicates: C01_SameItemsSameView (the view is a function of the set of valid items, across replicas, "
+           "routes and time), C01_SyncReaches (bidirectional exchange until quiet reaches the common state). Exhaustive only "
+           "within the model bounds; histories are sampled.",
+    "C02": COMMON + "Predicates: C02_AppliedComplete, C02_RefreshApplies (applied = the spec's causally complete set, computed "
+           "by TLC from the raw items), C02_RefreshEqualsReload (fresh replica on a byte copy), C02_HeldBackThenApplied; "
+           "file-by-file delivery in seeded permutations with a refresh after every file.",
+    "C03": COMMON + "Predicate C03_Durable: after every successful commit a replica freshly opened on a copy of the storage "
+           "shows the same view, heads, applied graph and document; generated JSON covers braces, quotes, backslashes, "
+           "non-ASCII, nesting, all number kinds, several staged operations before the first commit.",
+    "C04": COMMON + "Predicates C04_Exact (document digest after update equals the submitted document normalised with "
+           "identifiers), C04_WeakUnderArrayConflict, C04_Idempotent, C04_EmptyCommit; model property P_C04_ReadAfterEdit "
+           "over every abstract document in every model state.",
+    "C05": COMMON + "Predicates C05_WinnerRule / C05_TreeFromBlocks on every observation (the rule is written out in "
+           "RevOrder.tla on the recorded identifier bytes); function level: every generated tree shape under every insertion "
+           "order (C05_TreeRule) and the comparison matrix over crafted identifiers (C05_OrderRule).",
+    "C06": COMMON + "Function level: TLC shows the transcription of merge_arrays satisfies the C06 relation on every ordered "
+           "pair of the bound (ArrayMergeMC), and the real merge_arrays is checked against the relation on every pair "
+           "(exhaustive within the bound); system level: C06_ArrayView (no duplication, no ghosts, no loss, no invention, "
+           "order) on every observation.",
+    "C07": COMMON + "Predicate C07_Resolve (not in conflict afterwards, adopts the chosen revision incl. deletions, choosing "
+           "the winner changes nothing); propagation through C01 on histories with resolutions; model property P_C07_Resolve.",
+    "C08": COMMON + "Every API call runs under a watchdog in a per-run rayon pool of size 1/2/4/16; C08_Returns demands "
+           "outcome ok or error (a timeout or panic is a violation) for every operation of the alphabet appended to sampled "
+           "model states (enabled or not) and for every call of every history. A deadlock that needs a particular "
+           "interleaving of rayon workers inside one call is sampled, not excluded.",
+    "C09": COMMON + "Crash enumeration: for commits and melds a fresh replica is opened on the storage after every prefix of "
+           "the writes (C09_CrashAtomic); write failures at every position with retry (C09_FailedCommit, C09_RetryDurable); "
+           "C09_CommitWriteOrder on the write log; model: CommitCrash / CommitFail / MeldCrash outcomes at every write boundary.",
+    "C10": COMMON + "Driver faults (bit flip, truncation, emptying, deletion, injected junk names) followed by open / refresh / "
+           "reload: C10_ErrorOrIntact (error, or exactly the intact causally complete subset as computed by TLC), "
+           "C10_NoAlteredContent. One known finding (P10) is recognised by shape and reported as KNOWN-FINDING.",
+    "C11": COMMON + "Predicates C11_Names (every item a replica writes hashes to its name, block index = highest parent + 1), "
+           "C11_AppendOnly, C11_SameBytes (one digest per key across all replicas and time), on every event incl. relays "
+           "through third replicas and commit metadata with floats.",
+    "C12": COMMON + "Predicate C12_NoDocChange at every Commit (incl. auto-resolution), Snapshot, Meld, Export and idle "
+           "Refresh/Reload; model property P_C12_NoDocChange; thorough tier also runs the spec mutants.",
+    "C13": COMMON + "Predicates C13_Commit (one new block, parents = previous heads, index rule, sole head), C13_Graph "
+           "(ancestor-closed, indices increase, heads), C13_ReadBack (get_delta vs raw bytes) on every observation.",
+    "C14": COMMON + "Predicates C14_Travel (view at a head set equals the view recorded when those were the heads), "
+           "C02_RefreshApplies for ReloadUntil (applied = ancestors), C14_Retrievable (every revision keeps value and parent).",
+    "C15": COMMON + "Predicates C15_Unstage, C15_ExportReplay, C15_CommitCleans, C15_Guards; model properties P_C15_*.",
+    "C16": COMMON + "Function level: make_diff_patch / apply_diff_patch on every pair of the bound (C16_DiffRoundTrip); "
+           "system level: C16_Reconstructs (every stored version rebuilds with the spec's script semantics) and "
+           "C16_StoredEqualsSubmitted; cache capacities 1, 2, 3, 16 through the multi-config runs.",
+    "C17": "KVTrace.tla is the write-once key/value model; every call of seeded operation sequences (small values and 36-56 KiB "
+           "incompressible values, keys ending in the wrappers' private suffixes, reopen of persistent backends) on 12 backend "
+           "stacks is validated against it by TLC; the same replica histories run over 7 backend stacks in lock-step and "
+           "MultiRun.tla demands equal views at every step. The Solid backend needs a network and is excluded.",
+    "C18": "MultiRun.tla: the same seeded histories are executed under worker pools 1..16, permuted listing orders, cache "
+           "capacities 1..3 and 16, and independently seeded hash tables (separate runs); TLC demands equal outcomes and "
+           "views at every step. Sampled configurations, not all.",
+    "C19": COMMON + "Function level: print/parse round trip of crafted and constructed identifiers (C19_RoundTrip), identifier = "
+           "function of digest and parent (C19_Pure), comparison matrix against the rule and transitivity samples "
+           "(C19_TotalOrder, C19_Transitive); system level C19_Canonical on every tree entry.",
+}
+DEFAULT_LEVEL_TEXT = COMMON
 LEVEL_NOTE = ("Trusted: TLC 1.8.0; the harness projection (own SHA-256 / string-aware JSON splitting, independent of "
-    "libmelda's parsers); hooks H2/H3 (cross-checked against raw block files by C05_TreeFromBlocks); atomic item writes.")
-TECHNIQUE = {}
-NOTES = "See DESIGN.md. Exit 2 = tool error (no verdict)."
+              "libmelda's parsers; its own edit-script applier); hooks H2/H3 (cross-checked against raw block files by "
+              "C05_TreeFromBlocks); atomic item writes. Bounded: model bounds in spec/mc/*.cfg, sampled histories.")
+TECHNIQUE = {
+    "C01": "TLC model checking (Melda.tla) + TLC trace validation of recorded histories (MeldaTrace.tla)",
+    "C06": "TLC: transcription of merge_arrays vs relation (exhaustive in bound) + trace validation of real outputs",
+    "C16": "TLC trace validation of edit-script round trips (exhaustive in bound) and of stored array versions",
+    "C17": "TLC trace validation against the KVStore model; lock-step multi-backend runs (MultiRun.tla)",
+    "C18": "lock-step multi-configuration runs validated by TLC (MultiRun.tla)",
+}
+for _p in ["C02", "C03", "C04", "C05", "C07", "C08", "C09", "C10", "C11", "C12", "C13", "C14", "C15", "C19"]:
+    TECHNIQUE.setdefault(_p, "TLC model checking (Melda.tla) + schedule replay + TLC trace validation (MeldaTrace.tla)")
+NOTES = ("See DESIGN.md (section 14 = as built). Exit 0 held / 1 VIOLATION with replay file / 2 tool error (no verdict). "
+         "known_findings.json lists P10 (not repaired) and 11 repaired defects.")
